@@ -422,15 +422,21 @@ fn planar_case(w: usize, h: usize) {
     if let Some(r) = reference {
         assert!(real.is_ok()); // every stream the reference decodes is accepted
         assert!(r.len() == len);
-        for i in 0..len {
-            assert!(out[i] == r[i]);
+        for row in 0..h {
+            for col in 0..w {
+                let p = (row * w + col) * 4;
+                assert!(out[p] == r[p]);
+                assert!(out[p + 1] == r[p + 1]);
+                assert!(out[p + 2] == r[p + 2]);
+                assert!(out[p + 3] == r[p + 3]);
+            }
         }
     }
 }
 
 #[cfg(kani)]
 #[kani::proof]
-#[kani::unwind(14)]
+#[kani::unwind(6)]
 fn tune_planar_3x1() {
     planar_case(3, 1);
 }
@@ -513,4 +519,28 @@ fn witness_rle16_bg_after_straddling_bg() {
 #[kani::unwind(9)]
 fn witness_rle16_literal_spec_straddling() {
     rle16_compare(true, false, false);
+}
+
+#[cfg(kani)]
+#[kani::proof]
+#[kani::unwind(6)]
+fn tune_real_only() {
+    let bytes: [u8; 5] = kani::any();
+    let n: usize = kani::any();
+    kani::assume(n <= 5);
+    let mut out = [0u8; 12];
+    let real = super::rle_32_decompress(&bytes[..n], 3, 1, &mut out);
+    if real.is_ok() { assert!(out[3] == bytes[2] || bytes[1] & 0xf0 == 0); }
+    std::mem::forget(real);
+}
+
+#[cfg(kani)]
+#[kani::proof]
+#[kani::unwind(6)]
+fn tune_ref_only() {
+    let bytes: [u8; 5] = kani::any();
+    let n: usize = kani::any();
+    kani::assume(n <= 5);
+    let r = ref_planar_decode(&bytes[..n], 3, 1);
+    if let Some(v) = r { assert!(v.len() == 12); }
 }
